@@ -22,6 +22,9 @@ EXPLANATION = (
 EXPLANATION += (
     ' ADDED: C18.4: a short read raised inside a pool worker reaches the caller (futures consumed or map iterated; no swallowing handler) - the rule of C17.1 / C17.4, because it is what turns a truncated data section into an exception.'
 )
+EXPLANATION += (
+    ' C18.4 includes the pool-scope clause of C17.1. C18.5: writers never pre-size or extend their output (no truncate / fallocate): a partial file is a short file, which is what lets the complete-read rule reject it.'
+)
 ASSUMPTIONS = [
     'file.read(n) returns fewer than n bytes only at end of file',
     'writes to one handle reach the file in program order (buffered I/O; a crash truncates a suffix)',
